@@ -12,7 +12,7 @@ import os
 from gemato.recursiveloader import ManifestRecursiveLoader
 
 from .. import gen_tree as GT
-from ..common import call, mk_result, run_cli, viol, internal_violations
+from ..common import genuine_oserror, call, mk_result, run_cli, viol, internal_violations
 from ..model import Model
 from ..seam import Seam
 from ..world import World, blocking_manifest
@@ -46,6 +46,28 @@ def generate(rng, tier, idx):
                           # listed dotfiles / files in dot-directories: verified by the pass that follows the walk
                           'p_listed_hidden': 0.6 if 'verify' in op else 0.0})
     info = g['info']
+    if op in ('update', 'cli-update') and rng.random() < 0.35:
+        # a plain shape that every update meets: several sibling directories, most with a Manifest of their own, files
+        # edited since.  Whatever the update has pending for one directory when a call fails in a later one must
+        # not have reached the disk
+        names_ = rng.sample(['aa', 'bb', 'mm', 'zz', 'a b'], rng.choice([2, 3, 4]))
+        tree_, mans_, tops_, files_ = [], [], [], []
+        for d_ in names_:
+            for n_ in (['f'] if rng.random() < 0.6 else ['f', 'g']):
+                tree_.append({'p': d_ + '/' + n_, 'k': 'file', 'c': 'content of %s/%s' % (d_, n_)})
+                files_.append(d_ + '/' + n_)
+            if rng.random() < 0.7:
+                mans_.append({'p': d_ + '/Manifest', 'entries': [{'tag': 'DATA', 'path': os.path.basename(f_), 'hashes': ['SHA256']}
+                                                               for f_ in files_ if f_.startswith(d_ + '/')]})
+                tops_.append({'tag': 'MANIFEST', 'path': d_ + '/Manifest', 'hashes': ['SHA256']})
+            else:
+                tops_ += [{'tag': 'DATA', 'path': f_, 'hashes': ['SHA256']} for f_ in files_ if f_.startswith(d_ + '/')]
+        mans_.append({'p': 'Manifest', 'entries': tops_})
+        g = {'tree': tree_, 'manifests': mans_}
+        info = {'need': files_, 'view_dirs': [''] + names_, 'manifests': [m_['p'] for m_ in mans_]}
+        shaped_muts = [{'m': 'rewrite', 'p': f_, 'c': 'edited ' + f_} for f_ in files_ if rng.random() < 0.8]
+    else:
+        shaped_muts = []
     sc = {'prop': ID, 'order_key': '%016x' % rng.getrandbits(64), 'tree': g['tree'],
           'manifests': g['manifests'], 'op': op, 'muts': []}
     if op == 'verify-sub':
@@ -70,6 +92,14 @@ def generate(rng, tier, idx):
         # give the update something to do
         sc['muts'] = GT.gen_mutations(rng, info, rng.choice([0, 1, 2]), allow_manifest=False, allow_retype=False)
         sc['hashes'] = rng.choice([['SHA256'], ['MD5', 'SHA1'], ['BLAKE2B', 'SHA512']])
+        sc['muts'] = list(sc['muts']) + shaped_muts
+        if rng.random() < 0.6:
+            # pending changes below sub-Manifests (several of them): whatever the update does with them before the scan is
+            # over must not reach the disk if a later call fails
+            mdirs_ = sorted(set(os.path.dirname(m['p']) for m in g['manifests'] if os.path.dirname(m['p'])))
+            under = [f for f in info['need'] if any(f.startswith(d_ + '/') for d_ in mdirs_)]
+            for f in rng.sample(under, min(len(under), rng.choice([1, 2, 3]))):
+                sc['muts'] = list(sc['muts']) + [{'m': 'rewrite', 'p': f, 'c': 'changed ' + GT.rand_content(rng)}]
     if op in ('update', 'cli-update', 'cli-update-sub', 'cli-create') and rng.random() < 0.35:
         # a Manifest file nothing refers to yet: the update scan opens and reads it (fault sites of their own)
         mdirs_ = set(os.path.dirname(m['p']) for m in g['manifests'])
@@ -206,11 +236,15 @@ def execute(sc):
     if updating:
         fw = first_write_index(events0)
         if fw is not None:
-            # scan phase only: sites before the first write-side call
-            cut = 0
+            # scan phase only.  It ends with the last read-side call on something that is not a Manifest (the save phase
+            # reads and writes Manifest files only) - not with the first write, which a broken scan may issue early
+            last_scan = None
+            for n, kind, rel, outcome in events0:
+                if kind in SITE_KINDS and not os.path.basename(rel or '').startswith('Manifest'):
+                    last_scan = n
             seen = 0
             for n, kind, rel, outcome in events0:
-                if n >= fw:
+                if n >= fw and (last_scan is None or n > last_scan):
                     break
                 if kind in SITE_KINDS:
                     seen += 1
@@ -238,6 +272,8 @@ def execute(sc):
             extra = {}
             r = run_op(sc, w, seam, mm, extra)
             snap1 = w.snapshot()
+            # (an OS error other than the injected one: does the object really answer with it?)
+            other_genuine = r[0] == 'OS' and r[1] != plan['errno'] and genuine_oserror(r[2])
         seams.append(seam)
         fired = sum(f_.get('_fired', 0) for f_ in seam.faults)
         if not fired:
@@ -261,7 +297,9 @@ def execute(sc):
             violations.append(v)
         elif r[0] == 'OS' and r[1] != plan['errno']:
             # another genuine OS error is fine only if the fault-free run had it too
-            if not (r0[0] == 'OS' and r0[1] == r[1]):
+            if other_genuine:
+                counters['another_genuine_oserror_first'] = counters.get('another_genuine_oserror_first', 0) + 1
+            elif not (r0[0] == 'OS' and r0[1] == r[1]):
                 v = viol('fault.other-oserror', '%s: injected %s but %s:%s escaped' % (sc['op'], site, r[0], r[1]),
                          sig='%s:%s' % (r[0], r[1]))
                 v['scenario_patch'] = patch
